@@ -163,7 +163,11 @@ class SourceRepository(Repository):
                 is_excluded = True
             else:
                 for excluded_path in excluded_paths:
-                    if os.path.commonprefix((root, excluded_path)) == excluded_path:
+                    # Compare whole path components: excluding "foo" must not
+                    # exclude a sibling such as "foo-bar".
+                    if root == excluded_path or root.startswith(
+                        excluded_path.rstrip(os.sep) + os.sep
+                    ):
                         is_excluded = True
                         break
 
